@@ -72,6 +72,12 @@ def gen_cases(tier, seed):
                          "public_start": i % 3 == 0, "testnet": (i // 6) % 2 == 1}
     for i in range(40 if q else 800):
         yield "ckd", {"k": hex(rng.randrange(1, secp.N)), "c": rand_bytes(rng, 32).hex(), "i": rng.choice([0, 1, 2, HARD - 1, rng.randrange(HARD)])}
+    # "for every parent key": parents at the structural boundaries of the scalar field (1, 2, n-1, (n+-1)/2, leading-zero patterns, the
+    # cube-root-of-unity scalars), each with a non-hardened and a hardened child
+    from .common import keys_boundary
+    kb = keys_boundary()
+    for j, kk in enumerate(kb if not q else kb[:7] + kb[7::3]):
+        yield "ckd", {"k": hex(kk), "c": rand_bytes(rng, 32).hex(), "i": [0, 1, HARD - 1][j % 3], "boundary_parent": True}
     for i in range(10 if q else 100):
         yield "ckd_hard", {"k": hex(rng.randrange(1, secp.N)), "c": rand_bytes(rng, 32).hex(), "i": rng.choice([HARD, HARD + 1, 2 ** 32 - 1, HARD + rng.randrange(HARD)])}
     for i in range(60 if q else 1000):
@@ -83,7 +89,7 @@ def gen_cases(tier, seed):
 
 def required(tier):
     return {"path.decided": 100, "path.composition": 60, "path.public_tail": 40, "path.hardened_from_pub_refused": 20,
-            "ckd.commute": 30, "siblings.children": 60, "networks.derivations": 25, "hd_root.decided": 5, "cli.hd": 12, "ser.class.zero_fingerprint_at_depth>0": 3, "siblings.class.parent_key_leading_zero": 4, "ckd.hardened_refused": 8, "ser.roundtrip": 50, "ser.class.key_leading_or_trailing_zero_bytes": 15, "ser.form.int": 10, "reject.decided": 400,
+            "ckd.commute": 30, "siblings.children": 60, "networks.derivations": 25, "hd_root.decided": 5, "cli.hd": 12, "ser.class.zero_fingerprint_at_depth>0": 3, "siblings.class.parent_key_leading_zero": 4, "ckd.hardened_refused": 8, "ser.roundtrip": 50, "ser.class.key_leading_or_trailing_zero_bytes": 15, "ser.form.int": 10, "reject.decided": 400, "reject.cli": 100, "ckd.boundary_parent": 10,
             "vectors.invalid": 16}
 
 
@@ -421,6 +427,20 @@ def run_case(kind, params, ctx):
             ctx.violation("ckd/raises", f"{type(e).__name__}: {e} for i={i}")
             return
         ctx.count("ckd.commute")
+        if params.get("boundary_parent"):
+            ctx.count("ckd.boundary_parent")
+            # ... and through the serialised route a wallet takes: xprv of that parent -> derive_from_path / get_xpub
+            try:
+                xprv = rb32.ser(k, c, 1, b"\x01\x02\x03\x04", 7, False)
+                got = bytes(hd.derive_from_path(f"m/{i}", xprv))
+                fpr = rb32.fingerprint(K) if hasattr(rb32, "fingerprint") else None
+                if r58.check_decode(got)[13:] != r58.check_decode(rb32.ser(rk, rc, 2, b"\0" * 4, i, False))[13:]:
+                    ctx.violation("derive/boundary-parent-wrong", f"derive_from_path(m/{i}) from an xprv holding k={k:#x}")
+                hd.get_xpub(xprv)
+            except ContractViolation:
+                raise
+            except Exception as e:
+                ctx.violation("derive/boundary-parent-raises", f"xprv holding k={k:#x}: {type(e).__name__}: {e}")
         ctx.nontrivial()
         if (ck, bytes(cc)) != (rk, rc):
             ctx.violation("ckd/priv-wrong", f"CKDpriv(i={i}) differs from reference")
@@ -529,6 +549,13 @@ def run_case(kind, params, ctx):
                 except Exception:
                     continue
                 ctx.violation(f"reject/accepted/{cls}{'/return_dict' if mode else ''}", f"deserialized_extended_key({s!r}, return_dict={mode}) returned {out!r:.100}")
+            if params["salt"] % 4 == 0 and cls != "length-0":
+                # the same invalid key handed to `bits hd`: no key printed AND the failure signalled (exit status), whatever exception type rejects it
+                from . import clihelp
+                for argv in (["hd", "m"], ["hd", "M", "--xpub"]):
+                    rr = clihelp.run(argv, s)
+                    ctx.count("reject.cli")
+                    clihelp.judge_invalid(ctx, rr, f"cli/hd-accepts-invalid/{cls}", f"bits {' '.join(argv)} with {s[:30]!r}…")
         # checksum failures
         good = rb32.ser(k, c, depth, fp, child, tn)
         t = bytearray(good)
